@@ -3,7 +3,7 @@ import functools
 import random
 import re
 
-from harness import common, core, gens, schemes, text, vers
+from harness import common, core, dense, gens, schemes, text, vers
 
 MAVEN_DOC = re.compile(r"^\d+(\.\d+)*(-[a-z]+\d*)*$")
 
@@ -84,6 +84,8 @@ def run(ctx):
                 break
         while len(triples) < ntriples and n >= 3:
             triples.append((r.choice(values), r.choice(values), r.choice(values)))
+        for fam in dense.families(r, cls, 4 if ctx.tier == "quick" else 40):   # same base, small variations (harness/dense.py)
+            triples.extend(itertools.permutations(fam[:6], 3))
         for a, b, c in triples:
             if excluded(name, a, b) or excluded(name, b, c) or excluded(name, a, c):
                 continue
